@@ -7,7 +7,7 @@ set_option linter.unusedSimpArgs false
     types.go GuardedIsAssignable                → `asg`   (identity/Any shortcut, then right-hand decomposition of
                                                    Unit / NotUndef (with fall-through) / Optional / alias / Variant, in that order)
     <X>type.go (t *XType) IsAssignable          → the `.x` arm of `asgRecv`
-    varianttype.go allAssignableTo              → `asgAllR`;  tupleAssignableTo → inlined (`if size.hi ≤ 0 then true else if no types then o ⊒ Any else all`)
+    varianttype.go allAssignableTo              → `asgAllR`;  tupleAssignableTo → inlined (`if size.hi ≤ 0 then true else if no types then o ⊒ Any else` the declared types at positions below size.hi, = `tupZip [o] types size.hi`)
     tupletype.go IsAssignable(Tuple) loop       → `tupZip`
     structtype.go IsAssignable(Struct)          → `structMember` / `structAll`;  IsAssignable(Hash) (the by-specification
                                                    exempt rule of C01) → guarded by the flag `sfh` (`sfh = true` is the code)
@@ -132,7 +132,7 @@ def asgRecv (a b : Ty) : Bool :=
       (match b with
        | .array e' r' => Rng.pos.sub r' && (decide (r'.hi ≤ 0) || asg .data e')
        | .tuple ts' g' => Rng.pos.sub (tupleSize ts' g') &&
-           (if (tupleSize ts' g').hi ≤ 0 then true else if ts'.isEmpty then asg .data .any else asgAllR .data ts')
+           (if (tupleSize ts' g').hi ≤ 0 then true else if ts'.isEmpty then asg .data .any else tupZip [.data] ts' (tupleSize ts' g').hi)
        | .hash k' v' r' => Rng.pos.sub r' && (decide (r'.hi ≤ 0) || (asg .str k' && asg .data v'))
        | .struct ms' => Rng.pos.sub (structSize ms') && asgMembers .str .data ms'
        | _ => false)
@@ -141,7 +141,7 @@ def asgRecv (a b : Ty) : Bool :=
       (match b with
        | .array e' r' => Rng.pos.sub r' && (decide (r'.hi ≤ 0) || asg .richData e')
        | .tuple ts' g' => Rng.pos.sub (tupleSize ts' g') &&
-           (if (tupleSize ts' g').hi ≤ 0 then true else if ts'.isEmpty then asg .richData .any else asgAllR .richData ts')
+           (if (tupleSize ts' g').hi ≤ 0 then true else if ts'.isEmpty then asg .richData .any else tupZip [.richData] ts' (tupleSize ts' g').hi)
        | .hash k' v' r' => Rng.pos.sub r' && (decide (r'.hi ≤ 0) || (asg (.variant [.str, .numeric]) k' && asg .richData v'))
        | .struct ms' => Rng.pos.sub (structSize ms') && asgMembersRichKey ms'
        | _ => false)
@@ -186,7 +186,7 @@ def asgRecv (a b : Ty) : Bool :=
        | .array e' r' => r.sub r' && (decide (r'.hi ≤ 0) || asg e e')
        | .tuple ts' g' => r.sub (tupleSize ts' g') &&
            -- tupleAssignableTo
-           (if (tupleSize ts' g').hi ≤ 0 then true else if ts'.isEmpty then asg e .any else asgAllR e ts')
+           (if (tupleSize ts' g').hi ≤ 0 then true else if ts'.isEmpty then asg e .any else tupZip [e] ts' (tupleSize ts' g').hi)
        | _ => false)
   | .hash k v r =>
       (match b with
@@ -195,11 +195,11 @@ def asgRecv (a b : Ty) : Bool :=
        | _ => false)
   | .tuple ts g =>
       (match b with
-       | .array e' r' => (tupleSize ts g).sub r' && (ts.isEmpty || r'.hi == 0 || asgAllL ts e')
+       | .array e' r' => (tupleSize ts g).sub r' && (ts.isEmpty || r'.hi == 0 || tupZip ts [e'] r'.hi)
        | .tuple ts' g' =>
            (tupleSize ts g).sub (tupleSize ts' g') &&
            (ts.isEmpty ||
-            (if ts'.isEmpty then (tupleSize ts' g').hi == 0 else tupZip ts ts' (tupleSize ts' g').hi))
+            (if ts'.isEmpty then tupZip ts [.any] (tupleSize ts' g').hi else tupZip ts ts' (tupleSize ts' g').hi))
        | _ => false)
   | .struct ms =>
       (match b with
@@ -224,7 +224,7 @@ def asgRecv (a b : Ty) : Bool :=
        | .hash k' v' r' => decide (r'.hi ≤ 0) || asg x (.tuple [k', v'] none)
        | .str | .strVal _ | .strSz _ => asg x (.strSz ⟨1, 1⟩)
        | .tuple ts' g' =>
-           (if (tupleSize ts' g').hi ≤ 0 then true else if ts'.isEmpty then asg x .any else asgAllR x ts')
+           (if (tupleSize ts' g').hi ≤ 0 then true else if ts'.isEmpty then asg x .any else tupZip [x] ts' (tupleSize ts' g').hi)
        | .iterable y => asg x y
        | _ => false)
   | .object p =>
@@ -239,7 +239,7 @@ termination_by (a.w + b.w, 1)
 decreasing_by
   all_goals simp_wf
   all_goals (try simp only [Ty.w, Ty.wl, Ty.wm, floatAll] at *)
-  all_goals first | (apply Prod.Lex.left; omega) | (apply Prod.Lex.right; omega)
+  all_goals first | (apply Prod.Lex.left; omega) | (apply Prod.Lex.right; omega) | (rw [Prod.lex_def]; simp only []; omega)
 
 /-- `allAssignableTo(bs, a)`: `a` accepts every member -/
 def asgAllR (a : Ty) (bs : List Ty) : Bool :=
